@@ -40,6 +40,9 @@ class Check:
         self.anchor_counts["%s:%s" % (rule, name)] = n
         if os.environ.get("VT_ANCHORS"):
             print("ANCHOR %s %s:%s n=%d floor=%d" % (self.pid if hasattr(self, "pid") else "", rule, name, n, floor))
+        if n >= floor:
+            # recorded as an obligation that holds, so that a reading on which the anchor is found can answer for one on which it is not
+            self.ok(rule, "anchor-missing|" + name, "anchor set '%s' has %d members (floor %d)" % (name, n, floor))
         if n < floor:
             self.violation(rule, "anchor-missing|" + name,
                            "anchor set '%s' has %d members, floor %d (rule cannot be evaluated)" % (name, n, floor))
@@ -51,6 +54,24 @@ class Check:
 
     def violations(self):
         return [o for o in self.obligations if o["status"] == "violation"]
+
+
+# rules whose subject IS the spelling of control flow: R-WRITE-COMPLETE asks of every early `return Ok` / `continue` / `break` in a writer
+# under which condition it is taken; a reading in which guard clauses have become nested branches has no such exits to ask about
+RAW_ONLY_RULES = {"R-WRITE-COMPLETE"}
+
+
+_REF = {}
+
+
+def _reading_reference(pid):
+    """tables/normalised_reference.json: per property and normalised reading, what the rules report on the REFERENCE tree's reading
+    (violation keys = noise of that reading: shapes the rules do not recognise there although the program as written satisfies them)
+    and the anchor counts there.  Written by tools_noise.py on a tree whose first reading is clean; never at check time."""
+    if "data" not in _REF:
+        p = os.path.join(VERIF, "tables", "normalised_reference.json")
+        _REF["data"] = json.load(open(p)) if os.path.exists(p) else {}
+    return _REF["data"].get(pid, {})
 
 
 def evaluate(pid, tier, rules, crates, th, silent=False):
@@ -65,10 +86,10 @@ def evaluate(pid, tier, rules, crates, th, silent=False):
     applied = None
     if ck.violations() and not os.environ.get("VT_NO_NORMALISE"):
         try:
-            # four normalised readings: with / without turning guard clauses into nested if/else (rules written against guard clauses
+            # six normalised readings (inline: 0 none, 1 private helpers only, 2 every small function of the same type / module): with / without turning guard clauses into nested if/else (rules written against guard clauses
             # read one, rules written against nested branches the other), with / without putting helper functions back into their
             # callers (rules that name a helper read one, rules that follow the data through it the other)
-            for guard, inline in ((False, False), (True, False), (False, True), (True, True)):
+            for guard, inline in ((False, 0), (True, 0), (False, 1), (True, 1), (False, 2), (True, 2)):
                 if not ck.violations():
                     break
                 crates_n, app = normalize.normalise_program(crates, guard=guard, inline=inline)
@@ -77,14 +98,34 @@ def evaluate(pid, tier, rules, crates, th, silent=False):
                 applied = dict(applied or {}, **app)
                 ckn = Check(pid, tier, silent=True)
                 rules(ckn, ir.Program(crates_n, th))
+                rid = "g%di%d" % (int(guard), int(inline))
+                ref = _reading_reference(pid).get(rid, {})
+                noise = set(ref.get("violations", ()))
                 nk = {v["key"] for v in ckn.violations()}
                 okk = {o["key"] for o in ckn.obligations if o["status"] == "ok"}
+                # a reading on which a rule lost its footing says nothing about that rule (the anchors are the framework's guard
+                # against vacuous rules: a rule whose anchor set is smaller than on the reference tree's same reading — or, where no
+                # reference is recorded, than on the program as written — no longer recognises what it is looking for)
+                weak = {v["rule"] for v in ckn.violations() if "anchor-missing" in v["key"]}
+                floors = ref.get("anchors") or ck.anchor_counts
+                for an, cnt in floors.items():
+                    if an in ck.anchor_counts and ckn.anchor_counts.get(an, 0) < cnt:
+                        weak.add(an.split(":", 1)[0])
+                # ... and so has a rule that complains on this reading about something it did not complain about on the program as
+                # written: the reading took apart a shape the rule relies on, and what it says about the rest is not believed either
+                # (an inlined call that a sibling obligation counts would otherwise pass vacuously)
+                raw_v = {o["key"] for o in ck.obligations if o["status"] == "violation"}
+                weak |= {v["rule"] for v in ckn.violations() if v["key"] not in raw_v}
+                # (a rule that reports nothing at all on a reading is NOT taken as holding there: most rules look at named functions, and
+                # a defect that inlining moved into a caller is outside their view on that reading — seeds C17b and C11 showed it)
                 for o in ck.obligations:
+                    if o["status"] != "violation" or o["rule"] in weak or o["rule"] in RAW_ONLY_RULES or o["key"] in noise:
+                        continue
                     # discharged only if the same obligation was evaluated on the normalised reading and held there (an obligation that
-                    # is merely absent, e.g. because an anchor was not found in that reading, discharges nothing)
-                    if o["status"] == "violation" and o["key"] not in nk and o["key"] in okk:
+                    # is merely absent discharges nothing)
+                    if o["key"] not in nk and o["key"] in okk:
                         o["status"] = "ok"
-                        o["what"] = "[holds on the normalised reading of the program; first reading said: %s]" % o["what"]
+                        o["what"] = "[holds on the normalised reading %s of the program; first reading said: %s]" % (rid, o["what"])
                         o["normalised"] = True
         except Exception as e:   # the second reading can only discharge; if it breaks, the first reading stands
             ck.note("normalised reading failed (%s: %s); first reading reported as is" % (type(e).__name__, str(e)[:120]))
@@ -270,7 +311,7 @@ def run(pid, rules, mutants=None, *, level="other", explanation="", not_decided=
     # fact-level self-test: every mutant must make some rule fire with a new key
     base_keys = {o["key"] for o in ck.obligations if o["status"] == "violation"}
     st = []
-    if mutants:
+    if mutants and not os.environ.get("VT_NO_SELFTEST"):
         for name, q, transform in mutants(P):
             ctx = patched(P, q, transform)
             if ctx is None:
